@@ -1325,7 +1325,18 @@ def _add_contains_views(run, world, mod, c):
         else:
             okn = True
             for r8 in range(8):
-                q = pred.residue_eval(n, ("len(self)", "self._bits"), 8, r8)
+                try:
+                    q = pred.residue_eval(n, ("len(self)", "self._bits"), 8,
+                                          r8)
+                except pred.Unrecognised:
+                    cx = _refute_byte_count(n, ("len(self)", "self._bits"))
+                    if cx is None:
+                        raise
+                    okn = False
+                    msg += "; length `%s` is %s bytes for a frame of %d " \
+                        "bits, expected %d" % (unparse(n), cx[1], cx[0],
+                                               (cx[0] + 7) // 8)
+                    break
                 if q != pred.QLin(1, 1 if r8 else 0):
                     okn = False
                     msg += "; length `%s` is %r bytes for width 8q+%d, " \
@@ -1397,7 +1408,20 @@ def _add_contains_views(run, world, mod, c):
                     continue
                 hit += 1
                 n_ = _to_bytes_call(p_.expr)[1]
-                q = pred.residue_eval(n_, names, 8, r8)
+                try:
+                    q = pred.residue_eval(n_, names, 8, r8)
+                except pred.Unrecognised as e_:
+                    # no closed form per residue class (float rounding, ...):
+                    # the expression is still refuted by one concrete width
+                    # at which it is not ceil(width / 8)
+                    cx = _refute_byte_count(n_, names)
+                    if cx is None:
+                        raise AnalysisError("Frame.pack: %s" % e_)
+                    okn = False
+                    msg = "length `%s` is %s bytes for a frame of %d " \
+                        "bits, expected %d" % (unparse(n_), cx[1], cx[0],
+                                               (cx[0] + 7) // 8)
+                    continue
                 if q != pred.QLin(1, 1 if r8 else 0):
                     okn = False
                     msg = "length `%s` is %r bytes for width 8q+%d, " \
@@ -1626,3 +1650,79 @@ def _add_contains_views(run, world, mod, c):
             and unparse(n) not in getattr(run, "c05_caches", ())]
         run.ob("R-FRAME-VIEW", "%s.Frame.%s#read-only" % (FR, name), not w,
                "%s modifies %s" % (name, w), where(mod, f2), trivial=True)
+
+
+
+def _refute_byte_count(e, names):
+    """(width, value) for the first width in 1..64 at which the arithmetic
+    expression e - the width read through one of `names` - does not evaluate
+    to ceil(width / 8); None when it agrees everywhere there (no proof, the
+    caller refuses) or uses anything but arithmetic on the width."""
+    import math
+
+    class Bad(Exception):
+        pass
+
+    def ev(x, w):
+        if unparse(x, 200) in names:
+            return w
+        if isinstance(x, ast.Constant) and isinstance(x.value, (int, float)) \
+                and not isinstance(x.value, bool):
+            return x.value
+        if isinstance(x, ast.UnaryOp) and isinstance(x.op, ast.USub):
+            return -ev(x.operand, w)
+        if isinstance(x, ast.BinOp):
+            a, b = ev(x.left, w), ev(x.right, w)
+            try:
+                if isinstance(x.op, ast.Add):
+                    return a + b
+                if isinstance(x.op, ast.Sub):
+                    return a - b
+                if isinstance(x.op, ast.Mult):
+                    return a * b
+                if isinstance(x.op, ast.Div):
+                    return a / b
+                if isinstance(x.op, ast.FloorDiv):
+                    return a // b
+                if isinstance(x.op, ast.Mod):
+                    return a % b
+                if isinstance(x.op, ast.RShift) and isinstance(
+                        a, int) and isinstance(b, int) and b >= 0:
+                    return a >> b
+                if isinstance(x.op, ast.BitAnd) and isinstance(
+                        a, int) and isinstance(b, int):
+                    return a & b
+            except (ZeroDivisionError, TypeError):
+                raise Bad()
+            raise Bad()
+        if isinstance(x, ast.IfExp):
+            return ev(x.body, w) if ev(x.test, w) else ev(x.orelse, w)
+        if isinstance(x, ast.Compare) and len(x.ops) == 1:
+            a, b = ev(x.left, w), ev(x.comparators[0], w)
+            f = {ast.Eq: lambda: a == b, ast.NotEq: lambda: a != b,
+                 ast.Lt: lambda: a < b, ast.LtE: lambda: a <= b,
+                 ast.Gt: lambda: a > b, ast.GtE: lambda: a >= b}.get(
+                     type(x.ops[0]))
+            if f is None:
+                raise Bad()
+            return f()
+        if isinstance(x, ast.Call) and not x.keywords and len(x.args) == 1:
+            fn_ = unparse(x.func)
+            a = ev(x.args[0], w)
+            if fn_ == "round":
+                return round(a)
+            if fn_ == "int":
+                return int(a)
+            if fn_ in ("math.ceil", "ceil"):
+                return math.ceil(a)
+            if fn_ in ("math.floor", "floor"):
+                return math.floor(a)
+        raise Bad()
+    for w in range(1, 65):
+        try:
+            v = ev(e, w)
+        except Bad:
+            return None
+        if v != (w + 7) // 8:
+            return (w, v)
+    return None
